@@ -56,25 +56,54 @@ def all_cols(tabs):
 
 def int_expr(rng, cols, depth=0):
     r = rng.random()
-    if depth >= 2 or r < 0.45:
+    if depth >= 2 or r < 0.42:
         return rng.choice(cols)
-    if r < 0.6:
+    if r < 0.56:
         return str(rng.choice([0, 1, 2, 3]))
-    op = rng.choice(["+", "-", "*"])
+    if r < 0.62 and depth < 2:
+        # CASE over integers (select kernel, if-rules)
+        return "(case when %s then %s else %s end)" % (pred(rng, cols, 2), int_expr(rng, cols, depth + 1), int_expr(rng, cols, depth + 1))
+    op = rng.choice(["+", "-", "*", "+", "-", "*", "/", "%"])
     return "(%s %s %s)" % (int_expr(rng, cols, depth + 1), op, int_expr(rng, cols, depth + 1))
+
+
+def other_cols(cols):
+    """the varchar / boolean columns of the tables the integer columns come from"""
+    tabs = sorted({c.split(".")[0] for c in cols})
+    out = {"varchar": [], "boolean": []}
+    for t in tabs:
+        for c, ty in {**TABLES, **KEYED}.get(t, []):
+            if ty in out:
+                out[ty].append("%s.%s" % (t, c))
+    return out
 
 
 def pred(rng, cols, depth=0, feats=None):
     r = rng.random()
-    if depth >= 2 or r < 0.5:
+    if depth >= 2 or r < 0.42:
         a = int_expr(rng, cols, 1)
         b = int_expr(rng, cols, 1)
-        if a == b:
-            b = str(rng.choice([0, 1, 2]))      # `x = x` is the known-unsound eq-eq family: own stream
+        if a == b and rng.random() < 0.5:
+            b = str(rng.choice([0, 1, 2]))      # (`x op x` is kept half of the time: NULL-sensitive)
         return "%s %s %s" % (a, rng.choice(["=", "<>", "<", "<=", ">", ">="]), b)
-    if r < 0.6:
+    if r < 0.50:
+        # two bounds on one column: the range-fold / conflict rules
+        c = rng.choice(cols)
+        k1, k2 = rng.choice([0, 1, 2, 3]), rng.choice([0, 1, 2, 3])
+        return "(%s %s %d and %s %s %d)" % (c, rng.choice([">", ">=", "<", "<="]), k1, c, rng.choice([">", ">=", "<", "<="]), k2)
+    if r < 0.58:
         return "%s is null" % rng.choice(cols)
-    if r < 0.68:
+    if r < 0.63:
+        return "%s in (%s)" % (rng.choice(cols), ", ".join(rng.choice(["0", "1", "2", "3", "NULL"]) for _ in range(rng.choice([1, 2, 3]))))
+    if r < 0.70:
+        oc = other_cols(cols)
+        if oc["varchar"] and rng.random() < 0.6:
+            c = rng.choice(oc["varchar"])
+            return rng.choice(["%s = 'a'" % c, "%s <> ''" % c, "%s like 'a%%'" % c, "%s is null" % c, "%s < 'b'" % c])
+        if oc["boolean"]:
+            c = rng.choice(oc["boolean"])
+            return rng.choice([c, "not %s" % c, "%s is null" % c, "%s = true" % c])
+    if r < 0.78:
         return "not (%s)" % pred(rng, cols, depth + 1)
     return "(%s) %s (%s)" % (pred(rng, cols, depth + 1), rng.choice(["and", "or"]), pred(rng, cols, depth + 1))
 
